@@ -36,8 +36,11 @@ def one(arg, tier):
         pkgs = sorted({"./" + os.path.dirname(f) for f in files if f.endswith(".go")})
         t0 = time.time()
         tp = subprocess.run(["go", "test", "-vet=off", "-count=1", "./..."], cwd=wt, env=ENV, capture_output=True, text=True)
-        res["repo_tests_pass"] = tp.returncode == 0
-        if tp.returncode != 0:
+        fails = [l for l in re.findall(r"^--- FAIL: (\S+)", tp.stdout, re.M) if l != "TestJitterTicker"]
+        buildfail = "[build failed]" in tp.stdout or "[setup failed]" in tp.stdout
+        res["repo_tests_pass"] = not fails and not buildfail  # TestJitterTicker fails on the pinned tree (BASELINE always_fail)
+        res["repo_tests_failed"] = fails[:5]
+        if not res["repo_tests_pass"]:
             res["repo_tests_tail"] = (tp.stdout + tp.stderr)[-600:]
         res["checks"] = {}
         for p in props:
